@@ -116,8 +116,8 @@ def get_html_md_word_splitter() -> WordSplitter:
 # Matches list markers (*, +, -) bare or before a space (but not before a letter for
 # example), headings (#, ##, etc.), blockquotes (> with or without a space after it),
 # setext underlines and thematic breaks (===, ---, ***, ___, also spaced as _ _ _), and code fence openers
-# (``` or ~~~, optionally with an info string).
-_md_specials_pat = re.compile(r"^([-*+_]|#+|>.*|=+|-{2,}|\*{2,}|_{2,}|`{3,}[^`]*|~{3,}.*)$")
+# (``` or ~~~, optionally with an info string), and table delimiter rows (-|-, :-:|-).
+_md_specials_pat = re.compile(r"^([-*+_|]|#+|>.*|=+|[-:|]*-[-:|]*|\*{2,}|_{2,}|`{3,}[^`]*|~{3,}.*)$")
 
 # Separate pattern to specifically find the numbered list cases for targeted escaping
 _md_numeral_pat = re.compile(r"^[0-9]+[.)]$")
